@@ -2,6 +2,7 @@
 from __future__ import annotations
 
 import asyncio
+import anyio
 import gc
 import json
 import warnings
@@ -636,13 +637,31 @@ def exec_reentry(ctx, case: Dict[str, Any]) -> None:
     async def main():
         outs = []
         loop = asyncio.get_running_loop()
-        with ScriptedHTTP(handler):
+        with ScriptedHTTP(handler) as http:
             tr = SSETransport(SSEParameters(url=BASE, timeout=TIMEOUT))
+            # (first_failed: the first entry is refused - the server is not up yet - and the object is entered again)
+            if case.get("first") == "failed":
+                state["gets"] = -1
+
+                async def refuse(request, rec, _h=handler):
+                    if state["gets"] == -1 and request.method == "GET":
+                        state["gets"] = 0
+                        return httpx.Response(503, content=b"starting")
+                    return await _h(request, rec)
+                http.handler = refuse
+                try:
+                    async with tr:
+                        outs.append(("entered_on_503", -1, tr._message_url, 0.0))
+                except BaseException as e:  # noqa
+                    if isinstance(e, (KeyboardInterrupt, SystemExit)):
+                        raise
             for k in range(2):
                 t0 = loop.time()
+                read_end = None
                 try:
                     async with tr:
                         outs.append(("entered", k, tr._message_url, loop.time() - t0))
+                        read_end = (await tr.get_streams())[0]
                         await asyncio.sleep(0.2)
                         state["stream"].release()
                 except BaseException as e:  # noqa
@@ -651,6 +670,24 @@ def exec_reentry(ctx, case: Dict[str, Any]) -> None:
                     outs.append(("raised", k, repr(e)[:100], loop.time() - t0))
                 if "stream" in state:
                     state["stream"].release()
+                # what this life of the object leaves behind once its context was left
+                await asyncio.sleep(0.05)
+                me = asyncio.current_task()
+                left = [x for x in asyncio.all_tasks() if x is not me and not x.done() and not x.get_name().startswith("vf-")]
+                after = {"life": k, "tasks": [f"{x.get_name()}:{getattr(x.get_coro(), '__qualname__', x.get_coro())}" for x in left],
+                         "clients_open": sum(1 for c in http.clients if not c.is_closed), "clients_total": len(http.clients),
+                         "read_stream": None}
+                if read_end is not None:
+                    try:
+                        with anyio.move_on_after(0.5) as scope:
+                            while True:
+                                await read_end.receive()
+                        after["read_stream"] = "still open (receive() blocks)" if scope.cancelled_caught else "?"
+                    except (anyio.EndOfStream, anyio.ClosedResourceError, anyio.BrokenResourceError):
+                        after["read_stream"] = "ended"
+                for x in left:
+                    x.cancel()
+                outs.append(("after_exit", k, after, 0.0))
         return outs
 
     try:
@@ -660,6 +697,21 @@ def exec_reentry(ctx, case: Dict[str, Any]) -> None:
         return
     ctx.count("scenarios")
     ctx.count("reentry_scenarios")
+    for o in outs:
+        if o[0] == "entered_on_503":
+            ctx.violation("entered_without_endpoint", "the transport was entered although the server answered 503", case)
+        if o[0] == "after_exit":
+            a = o[2]
+            if a["tasks"]:
+                ctx.violation("task_leaked", f"life {a['life'] + 1} of one SSETransport object: tasks still running after the context "
+                              f"was left: {a['tasks']}", case)
+            if a["clients_open"]:
+                ctx.violation("http_client_leaked", f"life {a['life'] + 1} of one SSETransport object: {a['clients_open']} of "
+                              f"{a['clients_total']} httpx clients not closed after the context was left", case)
+            if a["read_stream"] not in (None, "ended"):
+                ctx.violation("read_stream_not_ended", f"life {a['life'] + 1} of one SSETransport object: the read stream is "
+                              f"{a['read_stream']} after the context was left", case)
+    outs = [o for o in outs if o[0] in ("entered", "raised")]
     first, again = outs[0], outs[1]
     if first[0] != "entered":
         ctx.violation("entry_failed_despite_announcement", f"first entry of a fresh transport: {first}", case)
@@ -867,7 +919,8 @@ def exec_cancel_sweep(ctx, case: Dict[str, Any]) -> None:
 
 
 def _reentry_cases():
-    return [{"reentry": True, "second": k} for k in ("ok", "404", "connect_error", "silent")]
+    return [{"reentry": True, "second": k} for k in ("ok", "404", "connect_error", "silent")] + \
+        [{"reentry": True, "second": k, "first": "failed"} for k in ("ok", "404")]
 
 
 def run(ctx):
